@@ -9,7 +9,7 @@ func init() {
 		ID: "C14",
 		Decides: "(R14.1) IsValidMaps stores a map only at an index tested to be within [0, len) and links it to the given previous map (index 0) or to each stored neighbour through IsValidManifests, which compares Previous() with the neighbour's hash; " +
 			"(R14.2) the batch job validates and updates the shared batch state only under the validate lock, hands a map to the callback only after it validated, and moves the previous-map anchor only to the batch's last height; " +
-			"(R14.3) BatchWork calls the batch preparation before running the batch's jobs, in both of its branches; (R14.4) a fetched map is accepted only if its height equals the requested height.",
+			"(R14.3) BatchWork calls the batch preparation before running the batch's jobs, in both of its branches, and reports success only if the jobs of every batch succeeded; (R14.4) a fetched map is accepted only if its height equals the requested height.",
 		NotDecided: "completeness ('exactly') for every arrival order and batch size — that all neighbour links are eventually tested follows from the slot logic over runtime indices, which is not decided here.",
 		Run:        runC14,
 	})
@@ -80,6 +80,7 @@ func runC14(c *Ctx) {
 		c.StoredIs(parent, "first anchor is the given previous map", firstStore(c, parent, "&var:newprev"), 1, "prev")
 	}
 	// R14.3 ------------------------------------------------------------------------------------
+	batchWorkErrRules(c, "R14.3")
 	c.Rule("R14.3", "MustPass")
 	if fn := c.Need("util.BatchWork"); fn != nil {
 		runs := c.CallsTo(fn, "util.RunJobWorker")
